@@ -1136,6 +1136,10 @@ def start_crypto_ties(ctx):
     """harness/hkdftie.py and harness/aeadtie.py (shared bit-exact models evaluated by vm_compute against
     aiohomekit.crypto.hkdf.hkdf_derive / aiohomekit.crypto.chacha20poly1305, independent oracles) in threads"""
     import threading
+    import aiohomekit.crypto.chacha20poly1305  # noqa: F401  (imported here: concurrent first imports deadlock)
+    import aiohomekit.crypto.hkdf  # noqa: F401
+    import aeadtie  # noqa: F401
+    import hkdftie  # noqa: F401
     out = {}
 
     def one(name):
@@ -1168,7 +1172,7 @@ def bitexact_m5_m6(ctx, recs):
                 continue
             seen.add(k)
             picked.append(r)
-    picked = picked[:4] if ctx["tier"] != "thorough" else picked[:10]
+    picked = picked[:2] if ctx["tier"] != "thorough" else picked[:10]
     body = ["From Coq Require Import List NArith Bool.", "From AHK Require Import Lib.ByteStr Model.ChaChaPoly Model.Hkdf.",
             "Import ListNotations.", "Local Open Scope N_scope.",
             "Definition chk K salt info nonce box (some : bool) (pt : bytes) : N := match hkdf_derive K salt info 32 with "
@@ -1442,7 +1446,7 @@ def vm_crosscheck(ctx, sample):
     import re
     from common import coq_eval
     body = [XC_PRELUDE] + [f"Eval vm_compute in {coq_request(req)}." for req, _ in sample]
-    out = coq_eval(ctx["verif"], "C03", "crosscheck", "\n".join(body) + "\n", timeout=120)
+    out = coq_eval(ctx["verif"], "C03", "crosscheck", "\n".join(body) + "\n", timeout=600)
     blocks = out.split("= ")[1:]
     bad = []
     if len(blocks) != len(sample):
